@@ -17,6 +17,7 @@ structure DSt where
   cur : Nat := 0
   lastEvs : List (Off × Rec) := []
   lastNext : Off := []
+  buses : List Nat := []          -- instances that have a publishing bus (created by the first pub / replaypub / pubflaky)
 
 def offToString (o : Off) : String := String.mk (o.map (fun b => Char.ofNat b))
 def offOfString (s : String) : Off := s.toUTF8.toList.map (·.toNat)
@@ -77,6 +78,7 @@ def step (s : DSt) (line : String) : DSt × Option String :=
     (setInst s i' (offs ++ [off]), some ("append " ++ offToString off))
   | ["pub", r] =>
     -- a publish through a bus on top of the store: one record appended, visible to the handler of that publish
+    let s := { s with buses := s.cur :: s.buses }
     let (i, offs) := getInst s
     let (i', n) : Inst × Nat := match i with
       | .mem m => let m' := (m.append (nat! r)).1; (.mem m', m'.events.length)
@@ -85,6 +87,7 @@ def step (s : DSt) (line : String) : DSt × Option String :=
     (setInst s i' offs, some s!"pub n={n} last={r}")
   | ["replaypub", r] =>
     -- the same publish made from the callback of a Replay over a non-empty log (which the callback then stops)
+    let s := { s with buses := s.cur :: s.buses }
     let (i, offs) := getInst s
     let len : Nat := match i with | .mem m => m.events.length | .sql q => q.rows.length | .ds d => d.msgs.length
     if len = 0 then (s, some "replaypub none")
@@ -94,6 +97,35 @@ def step (s : DSt) (line : String) : DSt × Option String :=
         | .sql q => let q' := (q.append (nat! r)).1; (.sql q', q'.rows.length)
         | .ds d => let d' := (d.append (nat! r)).1; (.ds d', d'.msgs.length)
       (setInst s i' offs, some s!"replaypub n={n} last={r}")
+  | ["drop", n] =>
+    (if nat! n == s.cur then s else { s with insts := s.insts.filter (fun p => p.1 != nat! n), buses := s.buses.filter (· != nat! n) }, some "drop")
+  | ["pubflaky", r] =>
+    -- durable-streams only: the server stores the event, the acknowledgement is lost: one record, one failure report
+    let s := { s with buses := s.cur :: s.buses }
+    let (i, offs) := getInst s
+    match i with
+    | .ds d => let d' := (d.append (nat! r)).1; (setInst s (.ds d') offs, some s!"pubflaky n={d'.msgs.length} last={r} perr=1")
+    | _ => (s, some "pubflaky unsupported")
+  | ["busreplay", f] =>
+    -- Replay on the instance's own bus (exists once something was published through it): everything after `from`
+    let i := (getInst s).1
+    let hasBus := s.buses.contains s.cur
+    match resolveOff s f with
+    | none => (s, some "busreplay skip")
+    | some o =>
+      if !hasBus then (s, some "busreplay skip") else
+      let r : Result := match i with
+        | .mem m => replayStream {} (m.stream o)
+        | .sql q => match sqlParse o with
+          | none => ⟨[], some .stream, []⟩
+          | some pos => replayStream {} ((q.select pos none).map (fun row => (decimal row.1, row.2)))
+        | .ds _ => replayPaged (instRead i) {} (effBatch 0) 100000 0 o []
+      let endS := match r.err with | none => "nil" | some _ => "err"
+      (s, some s!"busreplay end={endS} recs={showRecs r.delivered}")
+  | ["nestedreplay"] =>
+    let recs : List (Off × Rec) := match (getInst s).1 with
+      | .mem m => m.events | .sql q => q.rows.map (fun row => (decimal row.1, row.2)) | .ds d => d.msgs.map (fun r => ([], r))
+    (s, some s!"nestedreplay end=nil outer={showRecs recs} inner={showRecs recs}")
   | ["read", f, l] =>
     match resolveOff s f with
     | none => (s, some "read skip")
